@@ -16,6 +16,7 @@ limitations under the License.
 package content
 
 import (
+	"bytes"
 	"errors"
 	"fmt"
 	"io"
@@ -129,10 +130,9 @@ func ReadAll(r io.Reader, desc ocispec.Descriptor) ([]byte, error) {
 	if desc.Size < 0 {
 		return nil, ErrInvalidDescriptorSize
 	}
-	buf := make([]byte, desc.Size)
-
 	vr := NewVerifyReader(r, desc)
-	if n, err := io.ReadFull(vr, buf); err != nil {
+	buf, n, err := readFull(vr, desc.Size)
+	if err != nil {
 		if errors.Is(err, io.ErrUnexpectedEOF) {
 			return nil, fmt.Errorf("read failed: expected content size of %d, got %d, for digest %s: %w", desc.Size, n, desc.Digest.String(), err)
 		}
@@ -142,6 +142,27 @@ func ReadAll(r io.Reader, desc ocispec.Descriptor) ([]byte, error) {
 		return nil, err
 	}
 	return buf, nil
+}
+
+// maxPreallocSize is the largest buffer ReadAll allocates before any content
+// has been read. The size in a descriptor is not trustworthy: allocating it up
+// front panics (or exhausts the memory) for sizes no reader will ever deliver.
+const maxPreallocSize = 16 * 1024 * 1024 // 16 MiB
+
+// readFull reads exactly size bytes from r, like io.ReadFull into a buffer of
+// that size, but lets the buffer grow with the content for large sizes.
+func readFull(r io.Reader, size int64) ([]byte, int, error) {
+	if size <= maxPreallocSize {
+		buf := make([]byte, size)
+		n, err := io.ReadFull(r, buf)
+		return buf, n, err
+	}
+	var buf bytes.Buffer
+	n, err := io.CopyN(&buf, r, size)
+	if err == io.EOF {
+		err = io.ErrUnexpectedEOF
+	}
+	return buf.Bytes(), int(n), err
 }
 
 // ensureEOF ensures the read operation ends with an EOF and no
